@@ -10,6 +10,8 @@ import json, re, subprocess, sys, os, random, concurrent.futures as cf
 pid = sys.argv[1]
 maxper = int(sys.argv[2]) if len(sys.argv) > 2 else 6
 maxpaths = int(sys.argv[3]) if len(sys.argv) > 3 else 400
+minpaths = int(sys.argv[4]) if len(sys.argv) > 4 else 0
+suffix = sys.argv[5] if len(sys.argv) > 5 else ''
 prop = json.load(open(f'/verif/props/{pid}.json'))
 ev = json.load(open(f'/verif/evidence/{pid}.json'))
 paths = {}
@@ -73,7 +75,7 @@ def mutants_of(key):
                 out.append({'file': fn, 'old': old, 'new': new, 'line': st, 'mut': (o or 'drop') + '->' + (n or '')})
     return out
 def run(key, m):
-    cmd = ['timeout', '600', '/verif/bin/govc', 'verify', '-pkgs', ','.join(prop['packages']), '-funcs', key, '-timeout', '10',
+    cmd = ['timeout', '1500', '/verif/bin/govc', 'verify', '-pkgs', ','.join(prop['packages']), '-funcs', key, '-timeout', '10',
            '-mutate', f"{m['file']}::{m['old']}::{m['new']}"]
     r = subprocess.run(cmd, capture_output=True, text=True)
     o = r.stdout + r.stderr
@@ -85,7 +87,7 @@ def run(key, m):
 random.seed(1)
 jobs = []
 for key in prop['functions']:
-    if '.lemma.' in key or paths.get(key, 10**9) > maxpaths: continue
+    if '.lemma.' in key or paths.get(key, 10**9) > maxpaths or paths.get(key, 0) < minpaths: continue
     ms = mutants_of(key)
     random.shuffle(ms)
     for m in ms[:maxper]: jobs.append((key, m))
@@ -98,6 +100,6 @@ with cf.ThreadPoolExecutor(max_workers=5) as ex:
         res.append({'function': k, 'line': m['line'], 'mutation': m['mut'], 'status': st, 'info': info})
         if st in ('survived', 'error'): print(st.upper(), k, '|', m['line'], '|', m['mut'], info[:100], flush=True)
 os.makedirs('/verif/mutants', exist_ok=True)
-json.dump(res, open(f'/verif/mutants/{pid}.json', 'w'), indent=1)
+json.dump(res, open(f'/verif/mutants/{pid}{suffix}.json', 'w'), indent=1)
 from collections import Counter
 print(pid, dict(Counter(r['status'] for r in res)))
